@@ -34,7 +34,7 @@ ENVIRONS = {'keep': 'env set ' + H.vec([H.hx(b'PATH=/bin'), H.hx(b'LOGNAME=me\ns
 
 
 def configs(w):
-    fmt_all = b'%{filename}|%{cmdline}|%{env_all}|%{uid}|%{tty}|%{cwd}|%{login}|%{env:A}|%{env:NL}|%{env:LOGNAME}'
+    fmt_all = b'%{filename}|%{cmdline}|%{env_all}|%{uid}|%{tty}|%{cwd}|%{login}|%{env:A}|%{env:NL}|%{env:LOGNAME}|%{username}|%{eusername}|%{group}|%{egroup}|%{tty_username}|%{datetime}|%{hostname}|%{rpname}'
     c = {
         'absent': None,
         'empty': b'',
@@ -94,7 +94,7 @@ def cases_for(tier):
 
 
 # builds without configuration file: format, chain and default output are compiled in (variables of native/seam.c, set per process)
-FMT_ALL_CI = b'%{filename}|%{cmdline}|%{env_all}|%{uid}|%{tty}|%{cwd}|%{login}|%{env:A}|%{env:NL}|%{env:LOGNAME}'
+FMT_ALL_CI = b'%{filename}|%{cmdline}|%{env_all}|%{uid}|%{tty}|%{cwd}|%{login}|%{env:A}|%{env:NL}|%{env:LOGNAME}|%{username}|%{eusername}|%{group}|%{egroup}|%{tty_username}|%{datetime}|%{hostname}|%{rpname}'
 COMPILED_IN = {
     'compiled_in:devlog': [],
     'compiled_in:file': ['defformat ' + H.hx(FMT_ALL_CI), 'defoutput ' + H.hx(b'file'), 'defoutarg h@W@' + H.hx(b'/log')[1:]],
